@@ -64,6 +64,15 @@ def run(args):
         if a != b:
             return fail("gensim digests or shim counters differ between two executions of seed %d:\n%s\n%s" % (seeds[i], a, b))
     C.say("gensim: %d seeds x 2 executions: step digests and shim counters identical" % n_seeds)
+    # ---- 1b'. the grammar-program generator is used from pool threads: same text sequentially and concurrently
+    from . import gramgen
+    gs = list(range(1000, 1400))
+    seq = [gramgen.grammar(x) for x in gs]
+    with concurrent.futures.ThreadPoolExecutor(max_workers=16) as pool:
+        for _ in range(4):
+            if list(pool.map(gramgen.grammar, gs)) != seq:
+                return fail("vlib/gramgen.py gives different grammars when called concurrently")
+    C.say("gramgen: 400 seeds give the same grammar text sequentially and from 16 threads")
     # ---- 1c. fmtsim across worker counts
     fbin = C.require_build("fmtsim")
     results = []
